@@ -136,6 +136,27 @@ def check_property_file(pid, rundir):
                 log=out[-4000:], theorems=theorems)
 
 
+def coqchk_property(pid):
+    """Thorough tier: re-check Properties_<pid>.vo and everything it depends on with the independent checker; returns dict(ok, axioms, wall_s, log)."""
+    h = hashlib.sha256()
+    for v in sorted(glob.glob(os.path.join(COQ, "*.v"))):
+        h.update(os.path.basename(v).encode()); h.update(open(v, "rb").read())
+    cdir = os.path.join(CACHE, "coqchk"); os.makedirs(cdir, exist_ok=True)
+    cfile = os.path.join(cdir, "%s-%s.json" % (pid, h.hexdigest()[:20]))
+    if os.path.exists(cfile):
+        try: return json.load(open(cfile))
+        except Exception: pass
+    t0 = time.monotonic()
+    rc, out = sh(["timeout", "1800", "coqchk", "-silent", "-o", "-Q", COQ, "HV", "HV.Properties_%s" % pid], timeout=1900)
+    m = re.search(r"\* Axioms:(.*?)\n\s*\n\* Constants/Inductives relying on type-in-type:(.*?)\n", out, flags=re.S)
+    axioms = " ".join(m.group(1).split()) if m else "?"
+    res = dict(ok=(rc == 0 and axioms == "<none>"), axioms=axioms, wall_s=round(time.monotonic() - t0, 1), log=out[-1500:],
+               cmd="coqchk -silent -o -Q coq HV HV.Properties_%s" % pid)
+    json.dump(res, open(cfile + ".tmp", "w")); os.replace(cfile + ".tmp", cfile)
+    for old in sorted(glob.glob(os.path.join(cdir, "%s-*.json" % pid)), key=os.path.getmtime)[:-2]: os.remove(old)
+    return res
+
+
 # ----------------------------------------------------------------------------- OCaml model
 def ensure_model():
     """Extract and build ocaml/model_run when any .v / run.ml is newer."""
